@@ -77,13 +77,15 @@ def build_block(desc, line=0):
     return build_live(desc, line)
 
 
-def build_blocks(descs):
-    return [build_block(d, 3 * i) for i, d in enumerate(descs)]
+def build_blocks(descs, same_line=False):
+    """same_line: every block gets start_line 0, so that equal descriptions give blocks that compare equal
+    (`Block.__eq__` is structural) - a library may hold the same comment or preamble several times"""
+    return [build_block(d, 0 if same_line else 3 * i) for i, d in enumerate(descs)]
 
 
-def build_library(descs):
+def build_library(descs, same_line=False):
     from bibtexparser.library import Library
-    return Library(build_blocks(descs))
+    return Library(build_blocks(descs, same_line))
 
 
 def enc_item(b):
